@@ -400,7 +400,9 @@ def trap_oracle(req, ret, c, xs, ev):
             pass        # ta = 0 up to rounding: the C evaluates the next phase's polynomial at its start, equal up to rounding
         elif x <= 0 and not (p_ == cp0 and v_ == cv0):
             return "trapezoid: query x=%r before the start gives pos %r vel %r, start state is %r %r" % (x, p_, v_, cp0, cv0)
-        if x >= t and not (p_ == cp1 and v_ == cv1):
+        if t <= x <= t + st and abs(p_ - cp1) <= TOL * sp and abs(v_ - cv1) <= TOL * sv:
+            pass        # td = t up to rounding
+        elif x >= t and not (p_ == cp1 and v_ == cv1):
             return "trapezoid: query x=%r after the end (t=%r) gives pos %r vel %r, end state is %r %r" % (x, t, p_, v_, cp1, cv1)
         if not abs(v_) <= vm * (1 + TOL):
             return "trapezoid: |vel(%r)| = %r exceeds vm = %r" % (x, abs(v_), vm)
@@ -428,8 +430,12 @@ def bell_oracle(req, ret, c, xs, ev):
         return "a_trajbell_gen returned %r > 0 but the context is not finite: %r" % (ret, c)
     s = -1.0 if cp0 > cp1 else 1.0
     q0, q1, w0, w1 = s * cp0, s * cp1, s * cv0, s * cv1
-    sp = max(abs(cp0), abs(cp1), VM * t, 1e-300)
-    st = TOL * t
+    # conditioning: the no-cruise formulas compute ta, td as (am*tj + sqrt(D) - 2v)/(2am) with sqrt(D) ~ 2v, so their absolute
+    # rounding error is ~ eps*VM/am for the (possibly strongly reduced) acceleration am actually used; positions inherit
+    # eps*VM^2/am.  The position tolerance is TOL*(position scale) + 64 times that.
+    a_eff = min([a_ for a_ in (cam, -cdm) if a_ > 0] or [AM])
+    sp = max(abs(cp0), abs(cp1), VM * t, 1e-300) + 64 * EPS * VM * VM / a_eff / TOL
+    st = TOL * t + 64 * EPS * VM / a_eff
     chk = [
         ("returned duration is the recorded t", ret == t),
         ("recorded p0/p1 are the requested ones", cp0 == p0 and cp1 == p1),
